@@ -226,8 +226,35 @@ Section Step.
         match mstat s1 with Alive => run_steps fixed r s1 | _ => [] end
     end.
 
+  (** ** Appliers with scripted helpers (unit correspondence of the header templates) *)
+
+  (** PropagationApplier given the propagator's answer (distance, boundary), non-looping *)
+  Definition propagation_result_apply (dist : T) (boundary : bool) (s : sim) : sim :=
+    if mstep s =? n0 then s
+    else if boundary then with_step s dist ABoundary
+    else if dist <? mstep s then with_step s dist AOther
+    else s.
+
+  (** PhysicsStepView::msc_step: persists in the slot from one step to the next *)
+  Record mscstep := mkMsc { ms_true : T; ms_geom : T }.
+
+  (** MscStepLimitApplier with a helper whose limit_step stores (true, geom) and sets the
+      step to the geometrical path *)
+  Definition msc_limit_act (applicable : bool) (t g : T) (s : sim) (m : mscstep) : sim * mscstep :=
+    if applicable then (with_step s g (mpost s), mkMsc t g)
+    else (s, mkMsc (ms_true m) n0).
+
+  (** MscApplier with a helper whose apply_step restores the stored true path;
+      the flag tells whether apply_step was called *)
+  Definition msc_apply_act (s : sim) (m : mscstep) : sim * bool :=
+    match mstat s with
+    | Alive => if n0 <? ms_geom m then (with_step s (ms_true m) (mpost s), true) else (s, false)
+    | _ => (s, false)
+    end.
+
 End Step.
 
 Arguments sim T : clear implicits.
 Arguments sinput T : clear implicits.
 Arguments snapshot T : clear implicits.
+Arguments mscstep T : clear implicits.
